@@ -11,6 +11,11 @@ Mirrors (read from /repo):
 * a result is recorded by pickling: `__getstate__` takes `self.hash`, i.e. the hash is computed (if it was not
   yet) after the task body returned: `record` hashes the returned values in the filesystem the body left behind.
 
+* `check_valid="shallow"` (ultimate reduction, backends/db `_get_call_node` + `record_call_node`): the lookup takes the
+  CallNode with the newest *creation* timestamp for (task, args); `record_call_node` inserts nothing (and refreshes no
+  timestamp) when a node with the same call hash — i.e. for a leaf task: the same result value — already exists.
+  `nodes` is that table, newest first.  A found-but-invalid node is a miss (no fall-back to the Evaluation row).
+
 The task body is a parameter (`Body`): any function from the filesystem to an error or a new filesystem and
 the list of returned leaves (`none` = a plain, non-external leaf).  The driver instantiates it with
 "write these files at clock t, return these values".
@@ -29,7 +34,10 @@ abbrev Body (ε : Type) := FS → Except ε (FS × List (Option Val))
 
 structure St where
   fs : FS
+  /-- the Evaluation row (single reduction) of the (task, args) key -/
   cache : Option (List Leaf)
+  /-- the CallNode rows of the (task, args) key, newest creation first (a node is identified by its result) -/
+  nodes : List (List Leaf)
   execs : Nat
 
 inductive Outcome (ε : Type)
@@ -65,11 +73,21 @@ def execute {ε : Type} (U : List Path) (body : Body ε) (s : St) : St × Outcom
   | .error e => ({ s with execs := s.execs + 1 }, .failed e)
   | .ok (fs', outs) =>
     let ls := record U fs' outs
-    ({ fs := fs', cache := some ls, execs := s.execs + 1 }, .exec ls)
+    ({ fs := fs', cache := some ls, nodes := if ls ∈ s.nodes then s.nodes else ls :: s.nodes, execs := s.execs + 1 },
+      .exec ls)
+
+/-- what `check_cache` finds: the Evaluation row, or (shallow) the newest CallNode, falling back to the Evaluation
+row only when there is no CallNode at all -/
+def cached (shallow : Bool) (s : St) : Option (List Leaf) :=
+  if shallow then
+    match s.nodes with
+    | n :: _ => some n
+    | [] => s.cache
+  else s.cache
 
 /-- one `scheduler.run(task(args))` against the same backend -/
-def run {ε : Type} (U : List Path) (body : Body ε) (s : St) : St × Outcome ε :=
-  match s.cache with
+def run {ε : Type} (U : List Path) (shallow : Bool) (body : Body ε) (s : St) : St × Outcome ε :=
+  match cached shallow s with
   | some ls => if allValid U s.fs ls then (s, .replay ls) else execute U body s
   | none => execute U body s
 
@@ -94,12 +112,56 @@ def FS.truncIfExists (fs : FS) (p : Path) (t : Int) : FS :=
 /-- histories: external mutations of the filesystem interleaved with runs (any bodies) -/
 inductive HOp (ε : Type)
   | mutate (f : FS → FS)
-  | run (body : Body ε)
+  | run (shallow : Bool) (body : Body ε)
 
 def hstep {ε : Type} (U : List Path) (s : St) : HOp ε → St
   | .mutate f => { s with fs := f s.fs }
-  | .run b => (run U b s).1
+  | .run sh b => (run U sh b s).1
 
 def hrun {ε : Type} (U : List Path) (s : St) (ops : List (HOp ε)) : St := ops.foldl (hstep U) s
+
+/-! ### a downstream task consuming the result (`consume(make())`)
+
+The consumer's cache key is the hash of its argument, i.e. of the nested value returned upstream: a function of
+the recorded leaf hashes.  The consumer observes the filesystem through the values it was given
+(`observe`: size of a File / ContentFile, number of member files of a Dir / FileSet; nothing for immutable and
+staging values, which by contract never change). -/
+
+def observe (U : List Path) (fs : FS) : Val → Int
+  | .file .imm _ => 0
+  | .file _ p => match fs p with
+    | some n => n.bytes.length
+    | none => -1
+  | .fset .imm _ _ => 0
+  | .fset _ d r => (members U fs (sel d r)).length
+  | .dir .imm _ => 0
+  | .dir _ p => (members U fs (under p)).length
+  | .staging .. => 0
+
+def observeLeaf (U : List Path) (fs : FS) : Leaf → Int
+  | .ext v _ => observe U fs v
+  | .plain => 0
+
+def lookupL (k : List Leaf) : List (List Leaf × List Int) → Option (List Int)
+  | [] => none
+  | (a, b) :: t => if a = k then some b else lookupL k t
+
+structure CSt where
+  base : St
+  /-- the consumer's Evaluation rows: argument (recorded leaves) ↦ result -/
+  ccache : List (List Leaf × List Int)
+  cexecs : Nat
+
+/-- one `scheduler.run(consume(make()))`: upstream outcome, then `some (executed?, answer)` of the consumer -/
+def runChain {ε : Type} (U : List Path) (shallow : Bool) (body : Body ε) (c : CSt) : CSt × Outcome ε × Option (Bool × List Int) :=
+  let r := run U shallow body c.base
+  match r.2.leaves with
+  | none => ({ c with base := r.1 }, r.2, none)
+  | some ls =>
+    match lookupL ls c.ccache with
+    | some sm => ({ c with base := r.1 }, r.2, some (false, sm))
+    | none =>
+      let sm := ls.map (observeLeaf U r.1.fs)
+      ({ base := r.1, ccache := (ls, sm) :: c.ccache, cexecs := c.cexecs + 1 }, r.2, some (true, sm))
 
 end RedunModel.ExtCache
